@@ -165,74 +165,75 @@ def main() -> int:
     rechecked = None
     triage = None  # {"modules_ok", "modules_broken_theorems", "broken": {obligation: [kind prefixes] | None}}
     if not args.no_build:
-        ok, log = C.run_translate()
-        if not ok:
-            proof_broken = "translate.py failed on the working tree:\n" + log[-3000:]
-        targets = lean_modules + ([driver_name] if driver_name else [])
-        if proof_broken is None:
-            try:
-                ok, log = C.lake_build(targets)
-            except Exception as e:
-                print("ERROR: lake build could not run:", e)
-                return 2
-            if not ok:
-                proof_broken = "lake build failed:\n" + "\n".join(
-                    l for l in log.splitlines() if not l.startswith("✔") and "Built" not in l
-                )[-4000:]
-                # additive hook (C17/F10): a property module may attribute the build errors to named
-                # proof obligations ("known broken obligations", see the end of main); the modules that
-                # did build are still audited
-                if hasattr(P, "triage_build"):
-                    try:
-                        triage = P.triage_build(log)
-                    except Exception:
-                        traceback.print_exc()
-                        triage = None
-                # the driver may still be buildable on its own (model unchanged, theorem broken)
-                if driver_name:
-                    try:
-                        C.lake_build([driver_name])
-                    except Exception:
-                        pass
-        audit_modules = lean_modules if proof_broken is None else list((triage or {}).get("modules_ok", []))
+      with C.workspace_lock():  # translate + build + audit atomically w.r.t. other checks
+          ok, log = C.run_translate()
+          if not ok:
+              proof_broken = "translate.py failed on the working tree:\n" + log[-3000:]
+          targets = lean_modules + ([driver_name] if driver_name else [])
+          if proof_broken is None:
+              try:
+                  ok, log = C.lake_build(targets)
+              except Exception as e:
+                  print("ERROR: lake build could not run:", e)
+                  return 2
+              if not ok:
+                  proof_broken = "lake build failed:\n" + "\n".join(
+                      l for l in log.splitlines() if not l.startswith("✔") and "Built" not in l
+                  )[-4000:]
+                  # additive hook (C17/F10): a property module may attribute the build errors to named
+                  # proof obligations ("known broken obligations", see the end of main); the modules that
+                  # did build are still audited
+                  if hasattr(P, "triage_build"):
+                      try:
+                          triage = P.triage_build(log)
+                      except Exception:
+                          traceback.print_exc()
+                          triage = None
+                  # the driver may still be buildable on its own (model unchanged, theorem broken)
+                  if driver_name:
+                      try:
+                          C.lake_build([driver_name])
+                      except Exception:
+                          pass
+          audit_modules = lean_modules if proof_broken is None else list((triage or {}).get("modules_ok", []))
 
-        def _broken(msg):
-            # with a triaged build failure the build text is kept and the new problem is unexplained
-            if triage is not None and proof_broken is not None:
-                triage["broken"][msg[:120]] = None
-                return proof_broken + "\n" + msg
-            return msg
+          def _broken(msg):
+              # with a triaged build failure the build text is kept and the new problem is unexplained
+              if triage is not None and proof_broken is not None:
+                  triage["broken"][msg[:120]] = None
+                  return proof_broken + "\n" + msg
+              return msg
 
-        if proof_broken is None or audit_modules:
-            for m in audit_modules:
-                theorems.extend(C.theorems_in(m))
-            req = list(getattr(P, "REQUIRED_THEOREMS", []))
-            missing = [t for t in req if t not in theorems and t not in (triage or {}).get("modules_broken_theorems", [])]
-            if missing:
-                proof_broken = _broken(f"required property theorems are no longer stated: {missing}")
-            try:
-                axioms, alog = C.audit_axioms(pid, audit_modules, theorems)
-            except Exception as e:
-                print("ERROR: axiom audit could not run:", e)
-                return 2
-            bad = {t: a for t, a in axioms.items() if not set(a) <= C.ALLOWED_AXIOMS}
-            unseen = [t for t in theorems if t not in axioms]
-            if bad:
-                proof_broken = _broken(f"theorems depend on non-standard axioms: {bad}")
-            elif unseen:
-                proof_broken = _broken(f"axiom audit did not report on {unseen}:\n{alog[-2000:]}")
-            forbidden = C.grep_forbidden()
-            if forbidden:
-                proof_broken = _broken(f"forbidden tokens in Lean sources: {forbidden}")
-            if tier == "thorough" and proof_broken is None and lean_modules:
-                # independent re-check of the compiled property modules by leanchecker
-                try:
-                    ok, log = C.leanchecker(lean_modules)
-                    rechecked = ok
-                    if not ok:
-                        proof_broken = "leanchecker rejected the compiled property modules:\n" + log[-2000:]
-                except Exception as e:
-                    notes.append(f"leanchecker could not run: {e}")
+          if proof_broken is None or audit_modules:
+              for m in audit_modules:
+                  theorems.extend(C.theorems_in(m))
+              req = list(getattr(P, "REQUIRED_THEOREMS", []))
+              missing = [t for t in req if t not in theorems and t not in (triage or {}).get("modules_broken_theorems", [])]
+              if missing:
+                  proof_broken = _broken(f"required property theorems are no longer stated: {missing}")
+              try:
+                  axioms, alog = C.audit_axioms(pid, audit_modules, theorems)
+              except Exception as e:
+                  print("ERROR: axiom audit could not run:", e)
+                  return 2
+              bad = {t: a for t, a in axioms.items() if not set(a) <= C.ALLOWED_AXIOMS}
+              unseen = [t for t in theorems if t not in axioms]
+              if bad:
+                  proof_broken = _broken(f"theorems depend on non-standard axioms: {bad}")
+              elif unseen:
+                  proof_broken = _broken(f"axiom audit did not report on {unseen}:\n{alog[-2000:]}")
+              forbidden = C.grep_forbidden(lean_modules + (["Drivers." + driver_name[4:]] if driver_name and driver_name.startswith("drv_") else []))
+              if forbidden:
+                  proof_broken = _broken(f"forbidden tokens in Lean sources: {forbidden}")
+              if tier == "thorough" and proof_broken is None and lean_modules:
+                  # independent re-check of the compiled property modules by leanchecker
+                  try:
+                      ok, log = C.leanchecker(lean_modules)
+                      rechecked = ok
+                      if not ok:
+                          proof_broken = "leanchecker rejected the compiled property modules:\n" + log[-2000:]
+                  except Exception as e:
+                      notes.append(f"leanchecker could not run: {e}")
 
     driver = C.Driver(driver_name) if driver_name else None
     if driver is not None and not driver.available():
